@@ -49,6 +49,7 @@ type Op struct {
 	R      int         `json:"r,omitempty"`
 	T      int64       `json:"t,omitempty"`  // clock op: the simulated instant (unix seconds); repeat op: clock advance per repetition (seconds)
 	Note   string      `json:"note,omitempty"`
+	Inj    uint64      `json:"inj,omitempty"` // lint op: make the rule that executes statement (Inj mod N) of this call panic there (fine-grain build)
 }
 
 type Plan struct {
